@@ -3,11 +3,11 @@ CONSTANTS
   N = 3
   Size = 3
   MaxRead = 4
-  Unit = FALSE
+  Unit = TRUE
   Variant = "fixed"
-  MaxCalls = 4
-  AllocFail = FALSE
+  MaxCalls = 3
+  AllocFail = TRUE
   Trunc = {9}
-INVARIANTS NoReleaseBeforeVerify HistoryIndependence SequentialPrefix NoSilentTruncation
+INVARIANTS NoReleaseBeforeVerify SequentialPrefix NoSilentTruncation
 PROPERTY EveryCallReturns
 CHECK_DEADLOCK FALSE
